@@ -6,4 +6,4 @@ export CARGO_NET_OFFLINE=true
 PROPS=$(ls lean/Grenad/Props/*.lean | sed 's#lean/##; s#/#.#g; s#\.lean$##' | tr '\n' ' ')
 (cd lean && lake build Grenad gmodel $PROPS)
 [ -f harness/Cargo.lock ] || cp /repo/Cargo.lock harness/Cargo.lock
-(cd harness && cargo build --offline)
+(cd harness && cargo build --offline && cargo build --offline --no-default-features --target-dir target-min)
